@@ -9,6 +9,7 @@ ops (see `harness/cmd/drive-tbls/main.go`):
   subshare <ids> <j> <scalar> <msg>       -> agg=b ver=b
   subindex <ids> <j> <k> <msg>            -> agg=b ver=b
   submsg <ids> <j> <msg> <msg'>           -> agg=b ver=b
+  vfy <ids> <j> <k> <msg> <w1..w4>        -> pre=<12 bits> right=<4 bits> post=<12 bits> again=<2 bits>
 -/
 import CharonV.Model.Fr
 import Driver.Common
@@ -114,6 +115,23 @@ def step (s : St) (line : String) : St × String :=
         let same := msg == msg' || mul (lagCoeff0 (pts.map (·.1)) j) pj.2 == 0
         (s, aggOut s.secret (some pts) same)
     | _, _ => (s, "bad-op")
+  | ["vfy", ids, j, k, msg, w1, w2, w3, w4] =>
+    if !s.live then (s, "bad-op") else
+    match (parseIds ids).bind (lookupAll s.shares), j.toNat?, k.toNat? with
+    | some pts, some j, some k =>
+      match pts.find? (·.1 == j), s.shares.find? (·.1 == k), combine pts with
+      | some pj, some pk, some c =>
+        -- Verify(key•g1, m*, sig•H(m)) accepts iff m* = m and key = sig (stateless: no history argument)
+        let acc (key sig : Nat) (same : Bool) : String := b01 (same && key == sig && key != 0)
+        let ws := [w1, w2, w3, w4]
+        let neg := String.join (ws.map fun w => acc s.secret c (w == msg))
+          ++ String.join (ws.map fun w => acc pj.2 pj.2 (w == msg))
+          ++ acc pj.2 c true ++ acc pk.2 c true ++ acc s.secret pj.2 true ++ acc pk.2 pj.2 true
+        let ra := acc s.secret c true
+        let rb := acc pj.2 pj.2 true
+        (s, s!"pre={neg} right={ra}{rb}{ra}{rb} post={neg} again={ra}{rb}")
+      | _, _, _ => (s, "bad-op")
+    | _, _, _ => (s, "bad-op")
   | _ => (s, "bad-op")
 
 end Driver.Tbls
